@@ -64,6 +64,8 @@ def plan(tier, seed):
     for sname in ("AndersonCD", "GroupBCD", "MultiTaskBCD"):
         for part in range(2):
             tasks.append(dict(op="acc_family", solver=sname, part=part, weight=4))
+    for part in range(2):
+        tasks.append(dict(op="gram_acc", part=part, weight=4))
     return tasks
 
 
@@ -140,6 +142,68 @@ def exec_acc_column(comp, ks=(1, 2, 3, 4, 5, 6, 7)):
         if r["stop_crit"] <= 1e-14:
             break
     return out, objs
+
+
+# GramCD: one outer iteration is one epoch, so the plain (un-extrapolated) successor of every state of an accelerated run can be computed:
+# "accepting an extrapolated point never increases the objective" is checked on every transition k-1 -> k against that successor.
+
+def gram_acc_comps(task, tier):
+    seeds = range(10) if tier != "quick" else range(6)
+    for (n, p) in ((5, 6), (8, 12), (10, 8)):
+        for seed in seeds:
+            if seed % 2 != task["part"]:
+                continue
+            X, y = corr_design(seed, n, p, 0)
+            amax = float(np.max(np.abs(X.T @ y))) / n
+            for rho in (0.1, 0.02):
+                for pos in (False, True):
+                    yield dict(solver=dict(name="GramCD", kw=dict(use_acc=True, greedy_cd=False, tol=1e-14)), datafit=None,
+                               penalty=dict(name="L1", alpha=rho * amax, positive=pos), X=X.tolist(), y=y.tolist(), storage="denseF",
+                               xid=f"corr{n}x{p}s{seed}", w_init=np.zeros(p).tolist())
+
+
+def exec_gram_column(comp, kmax=21):
+    from mc import comp as C
+    out, objs = [], {}
+    prev = np.array(comp["w_init"], dtype=float)
+    f0 = C.objective(comp, prev)
+    for k in range(1, kmax + 1):
+        c = dict(comp, solver=dict(comp["solver"], kw=dict(comp["solver"]["kw"], max_iter=k)))
+        r = C.execute(c)
+        if r["status"] != "ok":
+            out.append(("exception", k, r["exc"]["type"] + ": " + r["exc"]["message"][:80], "solve succeeds"))
+            break
+        w = r["w"]
+        f = C.objective(c, w)
+        objs[k] = f
+        # plain successor of the previous state: one cyclic epoch without extrapolation
+        cp = dict(comp, w_init=prev.tolist(), solver=dict(name="GramCD", kw=dict(use_acc=False, greedy_cd=False, tol=1e-14, max_iter=1)))
+        rp = C.execute(cp)
+        if rp["status"] == "ok":
+            fp = C.objective(cp, rp["w"])
+            if np.isfinite(fp) and f > fp + tolerance(fp):
+                out.append(("extrapolation_worse_than_plain_epoch", k, f - fp, "<= 0"))
+        if f > f0 + tolerance(f0):
+            out.append(("above_start", k, f - f0, "<= 0"))
+        prev = w
+        if r["stop_crit"] <= 1e-14:
+            break
+    return out, objs
+
+
+def run_gram_acc(task, ctx):
+    n = 0
+    for comp in gram_acc_comps(task, ctx.tier):
+        v, objs = exec_gram_column(comp)
+        n += 1
+        ctx.states += len(objs)
+        ctx.transitions += len(objs)
+        ctx.count("gram_acc_columns")
+        ctx.obs(list(objs.values()), nontrivial=len(objs) > 1, n=max(1, len(objs)))
+        for kind, k, got, exp in v:
+            ctx.violation("solver:GramCD.extrapolation", kind, dict(op="gram_column", comp=comp), dict(k=k, value=got), exp,
+                          where=dict(solver="GramCD", family="correlated", positive=bool(comp["penalty"].get("positive"))))
+    ctx.sample(dict(op="gram_acc", columns=n))
 
 
 def run_acc_family(task, ctx):
@@ -280,6 +344,8 @@ def where_of(comp, at):
 def run(task, ctx):
     if task["op"] == "acc_family":
         return run_acc_family(task, ctx)
+    if task["op"] == "gram_acc":
+        return run_gram_acc(task, ctx)
     from mc import comp as C
     if task["op"] == "reweighted":
         return run_reweighted(task, ctx)
@@ -392,6 +458,10 @@ def exec_reweighted(params):
 
 
 def replay(params):
+    if params.get("op") == "gram_column":
+        from mc.core import fhex
+        v, objs = exec_gram_column(params["comp"])
+        return dict(violated=bool(v), kinds=sorted({x[0] for x in v}), detail=fhex([[x[0], x[1], x[2]] for x in v[:6]]), objs=fhex(list(objs.values())))
     if params.get("op") == "acc_column":
         from mc.core import fhex
         v, objs = exec_acc_column(params["comp"])
@@ -419,6 +489,7 @@ def describe(tier, agg):
             "objective; plus 'deep' columns k in 0..12 at e in {7,14} with p0 in {1,2} on correlated designs (working sets smaller "
             "than the support, zero weights, warm starts); plus the extrapolating solvers (AndersonCD, GroupBCD, MultiTaskBCD) on a fixed "
             "family of AR(1)-correlated 5x6 / 8x12 designs x 2 strengths x p0 in {1,2,3} x epochs {6,12}, columns max_iter = 1..7 "
-            "(working sets that grow, shrink and move): descent, never above the start, model-fit buffer == X w on return; "
+            "(working sets that grow, shrink and move): descent, never above the start, model-fit buffer == X w on return; GramCD(use_acc) "
+            "columns 1..21 on the same family (+10x8), L1 and L1+: every transition compared with the plain epoch from the same state; "
             "distinct = trajectories with > 2 distinct iterates")
     return rule, {"trajectories": 300, "accepted_extrapolations": 1, "reweighted_runs": 50, "acc_family_columns": 200}
